@@ -27,6 +27,14 @@ def cases(tier, rng):
         yield {'tol': False, 'ctx': 'default', 's': s, 'deep': True}
     for c in parseprops.base_cases(tier, rng, strict_only=True):
         yield c
+    # located errors under the walker's line / column offset keyword arguments (oracle only)
+    FAULTY = ['{abc', 'a\n{b', 'a\nb}\nc', '$x', 'a\n\n\\[ x', '\\begin{e}\nx', 'x\n\\end{e}', 'a\n b \\emph', '{a\n{b}\n', 'a}\n', '\\(x$\n']
+    for offs in [[0, 0, 0], [1, 0, 0], [0, 3, 0], [2, 0, 5], [7, 1, 1], [0, 0, 2], [1, 4, 0]]:
+        for s in FAULTY:
+            yield {'tol': False, 'ctx': 'default', 's': s, 'offs': offs}
+        for _ in range(15 if tier == 'quick' else 300):
+            s = ''.join(rng.choice(['a', '\n', ' ', '{', '}', '$', '\\x', '\\begin{e}', '\\end{e}', '\n\n']) for _ in range(rng.randint(1, 8)))
+            yield {'tol': False, 'ctx': 'default', 's': s, 'offs': offs}
     # fault injection on generated well-formed documents
     n = 300 if tier == "quick" else 4000
     for i in range(n):
@@ -43,9 +51,16 @@ def cases(tier, rng):
                        'fault': [pos, oldm + ' -> ' + newm], 'base': s}
 
 def to_line(c):
-    if c.get('deep'):
+    if c.get('deep') or c.get('offs'):
         return None
     return parsecase.to_line(c)
+
+def _line_col(s, pos, offs):
+    """line and column of a position, computed from the text: first line has number offs[0]; columns count from
+    offs[1] on the first line and from offs[2] on the others"""
+    line = s.count('\n', 0, pos)
+    start = s.rfind('\n', 0, pos) + 1
+    return (line + offs[0], pos - start + (offs[1] if line == 0 else offs[2]))
 
 def run_impl(c):
     w, kind, p = parsecase.parse(c)
@@ -60,6 +75,8 @@ def run_impl(c):
             fail = {'kind': 'error-without-position', 'detail': str(e)[:200]}
         elif not (0 <= e.pos <= len(s)):
             fail = {'kind': 'error-position-out-of-range', 'detail': 'pos=%r len=%d' % (e.pos, len(s))}
+        elif c.get('offs') and (e.lineno, e.colno) != _line_col(s, e.pos, c['offs']):
+            fail = {'kind': 'error-line-col-mismatch', 'detail': 'walker offsets %r: error says %r, pos %d is (line, column) %r' % (c['offs'], (e.lineno, e.colno), e.pos, _line_col(s, e.pos, c['offs']))}
         elif (e.lineno, e.colno) != tuple(w.pos_to_lineno_colno(e.pos)):
             fail = {'kind': 'error-line-col-mismatch', 'detail': 'error says %r, pos %d maps to %r' % ((e.lineno, e.colno), e.pos, w.pos_to_lineno_colno(e.pos))}
     elif kind == 'ok':
